@@ -22,7 +22,7 @@ CONSTANTS
   KC, KM,       \* node size in units (cpu, mem)
   MaxPend,      \* bound on pending pods
   EnvOn,        \* set of enabled environment actions (strings)
-  FaultOps,     \* fault operations explored: subset of {"get","update","delete","terminate","set_desired","list_pods","list_nodes","describe_all"}
+  FaultOps,     \* fault operations explored: subset of {"get","update","conflict","delete","terminate","set_desired","list_pods","list_nodes","describe_all","crash"}
   MaxFaults,    \* max size of a fault set
   TaintKinds,   \* ExtTaint values: subset of {"now","bad","future","zero"}
   InitNodes,    \* number of nodes present initially
@@ -173,7 +173,7 @@ Restart == On("Restart") /\ (ctl # [Ctl0 EXCEPT !.minEff = ctl.minEff, !.maxEff 
 (* The scan *)
 
 FaultUniverse ==
-  {[op |-> o, t |-> n] : o \in FaultOps \cap {"get", "update", "delete", "terminate"}, n \in Present}
+  {[op |-> o, t |-> n] : o \in FaultOps \cap {"get", "update", "conflict", "delete", "terminate"}, n \in Present}
   \cup {[op |-> o, t |-> G] : o \in FaultOps \cap {"set_desired", "list_pods", "list_nodes"}}
   \cup (IF "describe_all" \in FaultOps THEN {[op |-> "describe_asgs", t |-> "all"]} ELSE {})
   \cup (IF "crash" \in FaultOps THEN {[op |-> "crash", t |-> "#" \o ToString(k)] : k \in 1..3} ELSE {})
@@ -190,7 +190,7 @@ Outcomes(W, F) ==
 
 \* A fault on (op, target) can only change the scan if the scan performs op on target: fault sets are grown one fault at
 \* a time from the calls of the outcomes under the faults chosen so far (a failing write may bring new targets into play).
-Touches(r, f) == \E i \in 1..Len(r.calls) : /\ r.calls[i].op = f.op
+Touches(r, f) == \E i \in 1..Len(r.calls) : /\ r.calls[i].op = (IF f.op = "conflict" THEN "update" ELSE f.op)
                                               /\ \/ r.calls[i].n = f.t
                                                  \/ (f.op \in {"set_desired", "list_pods", "list_nodes"} /\ r.calls[i].g = f.t)
                                                  \/ f.op = "describe_asgs"
